@@ -310,3 +310,111 @@ def run_converters(facts, rep):
                 rep.ok(R, key, "converter %s (%s -> %s) applied to regions sized by its own bases" % (fld, ib, ob),
                        facts.loc(p, x), sample={"routine": p, "converter": fld, "bases": "%s -> %s" % (ib, ob)})
     return n
+
+
+# ------------------------------------------------------------------------------------------------------------------
+def run_baselen(facts, rep, fpath="util::rns::RNSTool::new"):
+    """R-SHAPE(baselen) [N]: the auxiliary base B of the BEHZ tool has exactly the number of primes its sizing rule asks for.
+
+    RNSTool::new decides the size of B with a bit-count inequality (`K*n*t*q^2 < q*prod(B)*m_sk`): a mutable counter
+    starts at |q| and is incremented when the inequality fails for |q| primes.  The primes handed to the base that is
+    later extended by m_sk (= base B) must be exactly that many — as a symbolic identity between the length of the
+    prime list (what remains of the sampled primes after m_sk and gamma are taken) and the sizing counter.  If the
+    lengths differ (for instance a slice bounded by |q|), every configuration in which the rule asks for one more prime
+    silently gets a B too small for fast_floor's range: BFV products wrap modulo prod(B)*m_sk."""
+    R = "R-SHAPE(baselen)"
+    rep.rule(R, "the number of primes handed to base B equals the counter of the sizing rule (symbolic length of the prime "
+             "list vs. the mutable size incremented under the bit-count inequality)")
+    from r_slotmod import Sym, padd, pconst, patom, pshow
+    if not rep.anchor(R, fpath, fpath in facts.hir):
+        return 0
+    rep.fn(fpath)
+    body = facts.hir[fpath]
+    sym = Sym(facts, body)
+    order = {id(x): i for i, x in enumerate(walk(body))}
+    # the sizing counter: a `mut` integer local incremented by one inside an `if` whose condition reads bit counts
+    sizing = None
+    for x in walk(body):
+        if x.get("k") == "If" and any(y.get("k") in ("MCall", "Call") and "bit_count" in ((callee(y) or {}).get("name") or y.get("name") or "")
+                                      for y in walk(x["c"])) or (x.get("k") == "If" and any(
+                                          local_of(y) and "bit_count" in local_of(y)[1] for y in walk(x["c"]))):
+            for y in walk(x["th"]):
+                if y.get("k") == "AssignOp" and local_of(y["lhs"]) and str(strip(y["rhs"]).get("v", "")).split("_")[0] == "1":
+                    sizing = local_of(y["lhs"])
+    # base B: the RNSBase::new(..) whose result is later extended (extend_modulus)
+    ext_recv = set()
+    for x in walk(body):
+        if x.get("k") == "MCall" and x.get("name") == "extend_modulus":
+            rl = root_local(x["recv"])
+            if rl:
+                ext_recv.add(rl[0])
+    base_b = None
+    for x in walk(body):
+        if x.get("k") == "Let" and x["pat"].get("k") == "PBind" and "init" in x and x["pat"]["lid"] in ext_recv:
+            for y in walk(x["init"]):
+                f = callee(y) or {}
+                if y.get("k") == "Call" and f.get("name") == "new" and "RNSBase" in f.get("def", "") and y["args"]:
+                    base_b = (x, y)
+    key = fpath + "/B"
+    if sizing is None or base_b is None:
+        rep.unresolved(R, key, "sizing counter or the construction of base B not recognised", facts.loc(fpath))
+        return 1
+    lets = {x["pat"]["lid"]: x for x in walk(body) if x.get("k") == "Let" and x["pat"].get("k") == "PBind" and "init" in x}
+
+    def length(e, at, depth=0):
+        """symbolic length of the sequence denoted by e when evaluated at position `at`"""
+        if depth > 10:
+            return None
+        e = strip(e)
+        k = e.get("k")
+        if k == "MCall":
+            nm = e.get("name")
+            if nm in ("iter", "into_iter", "copied", "cloned", "collect", "to_vec", "as_slice", "by_ref", "clone", "to_owned"):
+                return length(e["recv"], at, depth + 1)
+            if nm == "skip" and e["args"]:
+                b, kk = length(e["recv"], at, depth + 1), sym.poly(e["args"][0])
+                return padd(b, kk, -1) if isinstance(b, dict) and isinstance(kk, dict) else None
+            if nm == "take" and e["args"]:
+                kk = sym.poly(e["args"][0])
+                return kk if isinstance(kk, dict) else None
+            return None
+        if k == "Call":
+            f = callee(e) or {}
+            if f.get("name") == "get_primes" and len(e["args"]) >= 3:
+                c = sym.poly(e["args"][2])
+                return c if isinstance(c, dict) else None
+            return None
+        if k == "Index":
+            idx = strip(e["i"])
+            if idx.get("k") == "Struct" and "ops::Range" in idx.get("path", ""):
+                d = {f_["name"]: f_["e"] for f_ in idx["fields"]}
+                st = sym.poly(d["start"]) if "start" in d else {}
+                if "end" in d:
+                    en = sym.poly(d["end"])
+                else:
+                    en = length(e["e"], at, depth + 1)
+                if isinstance(st, dict) and isinstance(en, dict):
+                    return padd(en, st, -1)
+            return None
+        lo = local_of(e)
+        if lo and lo[0] in lets:
+            base = length(lets[lo[0]]["init"], order[id(lets[lo[0]])], depth + 1)
+            if not isinstance(base, dict):
+                return None
+            # an iterator local advanced by `.next()` before this use
+            nexts = [y for y in walk(body) if y.get("k") == "MCall" and y.get("name") == "next" and
+                     (local_of(y["recv"]) or (None,))[0] == lo[0] and order[id(lets[lo[0]])] < order[id(y)] < at]
+            return padd(base, pconst(len(nexts)), -1) if nexts else base
+        return None
+    L = length(base_b[1]["args"][0], order[id(base_b[1])])
+    want = patom("%s#%d" % (sizing[1], sizing[0]))
+    if not isinstance(L, dict):
+        rep.unresolved(R, key, "length of the prime list handed to base B not resolved", facts.loc(fpath, base_b[1]))
+    elif not padd(L, want, -1):
+        rep.ok(R, key, "base B receives %s primes, the counter of the sizing rule" % pshow(L), facts.loc(fpath, base_b[1]),
+               sample={"length": pshow(L), "sizing": sizing[1]})
+    else:
+        rep.violation(R, key, "base B is built from %s primes but the sizing rule (`%s`, incremented when the bit-count inequality "
+                      "fails) asks for %s: whenever the rule adds a prime, B is one prime short of the range fast_floor needs and "
+                      "BFV products wrap" % (pshow(L), sizing[1], pshow(want)), facts.loc(fpath, base_b[1]))
+    return 1
